@@ -319,9 +319,13 @@ def rule_r6(ctx):
     cc = [m for m in g.nodes if m.kind == "stmt" and isinstance(m.ast, ast.Assign) and any(dotted(t) == "self.connection_close" for t in m.ast.targets)
           and isinstance(m.ast.value, ast.Constant) and m.ast.value.value is True and g.dominates(n, m)]
     ok = False
+    what = var if var is not None else norm(c)  # the popped value: a local, or the pop itself tested in place
     for m in cc:
         gs = [(norm(t), pol) for (t, pol) in guards_of(g, m) if g.dominates(n, [x for x in g.nodes if x.kind == "branch" and x.ast is getattr(t, "_guard_of", t)][0])]
-        if gs in ([("%s is not None" % var, True)], [("%s is None" % var, False)], [(var, True)], []):
+        if var is None:
+            # the test that contains the pop is itself the node n: keep the guards made of that very test
+            gs = [(norm(t), pol) for (t, pol) in guards_of(g, m) if any(x is c or getattr(x, "_orig", None) is getattr(c, "_orig", c) for x in ast.walk(t))]
+        if gs in ([("%s is not None" % what, True)], [("%s is None" % what, False)], [(what, True)], [] if var is not None else None):
             ok = True
     if ok:
         ctx.r.ok(rid, "close verdict set whenever a Content-Length accompanied Transfer-Encoding", f.loc(cc[0].ast))
@@ -419,6 +423,9 @@ def rule_r9(ctx):
             sites.append((n, n.ast.value.args[0]))
         elif n.kind == "stmt" and isinstance(n.ast, ast.AugAssign) and isinstance(n.ast.target, ast.Subscript):
             sites.append((n, n.ast.value))
+        elif n.kind == "stmt" and isinstance(n.ast, ast.Assign) and len(n.ast.targets) == 1 and isinstance(n.ast.targets[0], ast.Subscript) and isinstance(n.ast.value, ast.BinOp) \
+                and isinstance(n.ast.value.op, ast.Add) and norm(n.ast.value.left) == norm(n.ast.targets[0]):
+            sites.append((n, n.ast.value.right))  # r[-1] = r[-1] + line
     ctx.r.floor(rid, len(sites), 2, "line acceptance sites in get_header_lines")
     for (n, val) in sites:
         v = dotted(val)
